@@ -123,8 +123,10 @@ def parseMod (j : Json) : R (Mod × List (Nat × Nat) × List Nat) := do
   let decls ← (← fldArr j "decls").mapM parseDecl
   let pi ← fldNat j "pollinterval"
   if iv ≠ pi then throw "a thread starts with PollInfo.interval = pollinterval"
-  -- `pending`: the parameters in the module's `writeDict` when the thread starts (positions in the parameter list)
-  return (startMod en (← fldNat j "slow") (if en then PollFlags.polledIdx 0 decls else []) pi, stamps, ← fldNats j "pending")
+  -- `given`: per parameter, whether the configuration (or the parameter definition) gives it a value; the model computes
+  -- from it what is in the module's `writeDict` when the thread starts
+  let given ← (← fldArr j "given").mapM (·.getBool?)
+  return (startMod en (← fldNat j "slow") (if en then PollFlags.polledIdx 0 decls else []) pi, stamps, givenIdx 0 given)
 
 /-- the parameters the poller may read are computed by the specification (`mayPoll`) from how the class declares
 its read functions; a module with polling disabled has none -/
@@ -208,8 +210,10 @@ def handle (j : Json) : R Json := do
   | "flags" =>
     -- model of the poll flag computation: one Boolean per declared parameter
     let decls ← (← fldArr j "decls").mapM parseDecl
+    let given ← (← fldArr j "given").mapM (·.getBool?)
     return Json.mkObj [("flags", jarr (decls.map (fun d => Json.bool (PollFlags.pollFlag d)))),
-                       ("polled", jarr ((PollFlags.polledIdx 0 decls).map jnat))]
+                       ("polled", jarr ((PollFlags.polledIdx 0 decls).map jnat)),
+                       ("pending", jnats (givenIdx 0 given))]
   | _ => throw s!"C13: unknown verb {k}"
 
 end Frappy.Drive.C13
